@@ -87,6 +87,14 @@ func Alphabet() []Sym {
 		{Name: "LogonChecksumNotThreeDigits", LogonClass: LogonBadChecksum, Type: "A", Build: func(p *Peer, lim [2]int) []byte {
 			return ChecksumOtherForm(p.Logon(mid(lim), "0", fixref.F(TUser, "user"), fixref.F(TPass, "pw")), p.Seq)
 		}},
+		// damaged Logons whose header carries the text '34=' inside a value in front of the genuine MsgSeqNum (a
+		// base64 SenderSubID, say): the Reject still refers to the Logon's number
+		{Name: "LogonBadChecksumWithSeqTagTextInFrontOfSeq", LogonClass: LogonBadChecksum, Type: "A", Build: func(p *Peer, lim [2]int) []byte {
+			p.Seq++
+			return BadChecksum(fixref.Encode(fixref.Std, "FIX.4.4", "A", []fixref.Field{
+				fixref.F(TSender, p.Sender), fixref.F(TTarget, p.Target), fixref.F("50", "a2V5A34="), fixref.F(TSeq, strconv.Itoa(p.Seq)),
+				fixref.F(TTime, "20240101-00:00:00.000"), fixref.F(TEncrypt, "0"), fixref.F(THeartBt, strconv.Itoa(mid(lim))), fixref.F(TUser, "user"), fixref.F(TPass, "pw")}))
+		}},
 		{Name: "LogonBadLength", LogonClass: LogonBadLength, Type: "A", Build: func(p *Peer, lim [2]int) []byte { return BadLength(p.Logon(mid(lim), "0")) }},
 		{Name: "LogonNonNumericHb", LogonClass: LogonNonNumericHb, Type: "A", Build: func(p *Peer, lim [2]int) []byte {
 			return p.Msg("A", fixref.F(TEncrypt, "0"), fixref.F(THeartBt, "3x"))
